@@ -95,9 +95,21 @@ Section Run.
   Variable show_item : Item -> string.
   Variable as_str : St -> view.
   (** one entry per step: the item (or N) and where as_str() sits afterwards *)
+  (** [copy().rev()] of a state drained from its front = the state drained from its back *)
+  Fixpoint drain_back (fuel : nat) (st : St) : option (list string) :=
+    match fuel with
+    | O => Some ["FUEL"]
+    | S f =>
+        match next_back st with
+        | Ok None => Some []
+        | Ok (Some (x, st')) => consopt (show_item x) (drain_back f st')
+        | _ => None
+        end
+    end.
+  Variable fuel : nat.
   Fixpoint steps (h : list end_) (st : St) : option (list string) :=
     match h with
-    | [] => Some []
+    | [] => match drain_back fuel st with Some d => Some ["R" ++ join "." d] | None => None end
     | e :: h' =>
       match (match e with Front => next st | Back => next_back st end) with
       | Ok None => consopt ("N@" ++ show_v (as_str st)) (steps h' st)
@@ -113,10 +125,11 @@ Definition show_ic (p : Z * Z) : string := show_Z (fst p) ++ ":" ++ show_hexZ (s
 
 Definition c07_iter (s : list Z) (h : list end_) : string :=
   show_fields
-    [("chars", show_steps _ _ chars_next chars_next_back show_hexZ chars_as_str h (chars_init s));
-     ("rchars", show_steps _ _ rchars_next rchars_next_back show_hexZ chars_as_str h (chars_init s));
-     ("ci", show_steps _ _ cidx_next cidx_next_back show_ic cidx_as_str h (cidx_init s));
-     ("rci", show_steps _ _ rcidx_next rcidx_next_back show_ic cidx_as_str h (cidx_init s))].
+    (let fuel := S (length s) in
+    [("chars", show_steps _ _ chars_next chars_next_back show_hexZ chars_as_str fuel h (chars_init s));
+     ("rchars", show_steps _ _ rchars_next rchars_next_back show_hexZ chars_as_str fuel h (chars_init s));
+     ("ci", show_steps _ _ cidx_next cidx_next_back show_ic cidx_as_str fuel h (cidx_init s));
+     ("rci", show_steps _ _ rcidx_next rcidx_next_back show_ic cidx_as_str fuel h (cidx_init s))]).
 
 (* ------------------------------------------------------------------ Spec.Utf8 vs std *)
 
